@@ -72,8 +72,48 @@ def handle (inp impl : Json) : CaseResult :=
       else if !Spec.C01.isPrefixOfFull o.effects then "effects-out-of-order"
       else "result-or-store-write-relation" }
 
+/-- expected decoded call for a written commitment -/
+def wantArgs (w : Json) : Abi.Args :=
+  let cb := Signer.bidOf (jobj w "commit_bid")
+  let amt := (parseBigInt cb.amount).getD 0
+  ⟨amt.toNat, cb.blockNumber.toNat, cb.txHash, cb.decayStart.toNat, cb.decayEnd.toNat,
+    cb.signature.getD [], jbytes w "commit_sig"⟩
+
+/-- several bids in flight: every written commitment must be matched by its own earlier
+    settlement transaction carrying exactly it -/
+def handleC07Concurrent (inp impl : Json) : CaseResult :=
+  let effs := (jarr impl "effects").toList
+  let sel := jbytes inp "selector"
+  let n := (jarr inp "bids").size
+  let decoded := effs.map (fun j =>
+    if jstr j "t" == "store" then
+      (match Abi.decodeCall (jbytes j "calldata") with
+       | some (sl, a) => if sl == sel && jstr j "to" == "00000000000000000000000000000000000000da" then some a else none
+       | none => none)
+    else none)
+  -- greedy matching: walk the log; stores add to a pool, a write must find its args in the pool
+  let (ok, _) := (effs.zip decoded).foldl (fun (acc : Bool × List Abi.Args) (p : Json × Option Abi.Args) =>
+    let (good, pool) := acc
+    let j := p.1
+    if jstr j "t" == "store" then
+      (match p.2 with
+       | some a => (good, a :: pool)
+       | none => (false, pool))
+    else if jstr j "t" == "write" then
+      let w := wantArgs j
+      if pool.contains w then (good, pool.erase w) else (false, pool)
+    else (good, pool)) (true, [])
+  let writes := (effs.filter (fun j => jstr j "t" == "write")).length
+  let allOk := ok && writes == n && !(jbool impl "panic") && !(jbool impl "stuck")
+  { model := mkObj [("result", "concurrent"), ("panic", false), ("stuck", false)], spec := allOk,
+    why := if allOk then "" else
+      if jbool impl "stuck" then "handlers-stuck"
+      else if !ok then "commitment-returned-without-a-settlement-transaction-carrying-it"
+      else "not-every-accepted-bid-got-a-commitment" }
+
 /-- C07: calldata of the settlement transaction vs the commitment written -/
 def handleC07 (inp impl : Json) : CaseResult :=
+  if jstr inp "tag" == "concurrent" then handleC07Concurrent inp impl else
   let e := envOf inp
   let m := handleBid e
   let effs := (jarr impl "effects").toList
